@@ -56,7 +56,7 @@ def valid_base(rng):
 
 def cases(rng, tier):
     out = []
-    n = 3500 if tier == "quick" else 120000
+    n = 3500 if tier == "quick" else 40000
     seen = set()
     while len(out) < n:
         ch, chm = rng.choice(CHALLENGES)
